@@ -755,6 +755,10 @@ where
         if !self.need_store {
             self.qos2_publish_handled.clear();
 
+            // The session ends with the connection: the stored packets go together with their
+            // packet IDs (released below), otherwise they would be re-sent later with freed IDs
+            self.store.clear();
+
             // Release packet IDs for PUBACK
             for packet_id in self.pid_puback.drain() {
                 if self.pid_man.is_used_id(packet_id) {
